@@ -81,7 +81,11 @@ def visitItem (m : Nat) (W : World) (rec : Analyse) (fn : Fn) (inputSig : Sg) (s
     (st : VisitSt) : Item → Except DdsErr VisitSt
   | .call f line => plain st f [] [] line
   | .callArgs f args kwargs _ _ line => plain st f args kwargs line
-  | .ref f line => if f ∈ st.seen then .ok st else plain st f [] [] line
+  -- a function named (not called) is analysed as a call without arguments, once per body; since the `fix:`
+  -- commit for references after a call, an earlier *call* or *keep* of the same function does not count
+  | .ref f line => if f ∈ st.seen then .ok st else do
+      let st' ← plain st f [] [] line
+      pure { st' with seen := f :: st'.seen }
   | .keep path f args kwargs _ _ line => do
     let ctx ← siteCtx m fn inputSig st.inters line st.refs st.loads
     if !pathAbsolute path then .error .pathNotAbsolute else
@@ -92,7 +96,7 @@ def visitItem (m : Nat) (W : World) (rec : Analyse) (fn : Fn) (inputSig : Sg) (s
       let named ← liftA (getArgCtxAst m g.params args kwargs)
       let (fis, refs) ← rec st.refs (stack ++ [f]) g ⟨named, ctx⟩
       -- (since the `fix:` commit for C09) the kept path is registered for the loads that follow
-      pure { st with inters := st.inters ++ [fis.withPath path], seen := f :: st.seen, refs := aset refs path fis.retSig }
+      pure { st with inters := st.inters ++ [fis.withPath path], refs := aset refs path fis.retSig }
   | .load path _ =>
     if !pathAbsolute path then .error .pathNotAbsolute else
     .ok { st with loads := st.loads ++ [path] }
@@ -106,7 +110,7 @@ where
       if f ∈ stack then .error .circularCall else do
       let named ← liftA (getArgCtxAst m g.params args kwargs)
       let (fis, refs) ← rec st.refs (stack ++ [f]) g ⟨named, ctx⟩
-      pure { st with inters := st.inters ++ [fis], seen := f :: st.seen, refs := refs }
+      pure { st with inters := st.inters ++ [fis], refs := refs }
 
 def visitItems (m : Nat) (W : World) (rec : Analyse) (fn : Fn) (inputSig : Sg) (stack : List String) :
     VisitSt → List Item → Except DdsErr VisitSt
